@@ -43,6 +43,8 @@ func genOp(t *rapid.T) Op {
 		op = Op{Op: "error", Name: rapid.SampledFrom([]string{"org.varlink.service.InvalidParameter", "org.varlink.service.Custom"}).Draw(t, "ename"), P: genParamsObj(t)}
 	case "ifnotfound", "methodnotfound", "notimpl", "invalidparam":
 		op = Op{Op: k, S: rapid.SampledFrom([]string{"x", "", "a.b", "é\"\x00"}).Draw(t, "s")}
+	case "fail":
+		op = Op{Op: "fail", S: rapid.SampledFrom(failKinds).Draw(t, "failkind")}
 	default:
 		op = Op{Op: k}
 	}
@@ -145,6 +147,32 @@ func genC01(t *rapid.T) ProtoCase {
 		cc.Cuts = genCuts(t, cc.stream())
 		c.Conns = append(c.Conns, cc)
 	}
+	if rapid.IntRange(0, 39).Draw(t, "stall") == 7 {
+		// one more client pipelines calls with large replies and never reads: its connection stalls inside the service
+		// while the other connections (and a probe connection) must be served as if it were not there
+		c.Probe = true
+		k := len(c.Conns)
+		st := ConnCase{AbortAt: -1, NoRead: true}
+		for i := 0; i < 3; i++ {
+			if rapid.Bool().Draw(t, "stallkind") {
+				st.Frames = append(st.Frames, EncodeCall("org.varlink.service.GetInfo", nil, false, false, false))
+			} else {
+				sp := ScriptParams{Conn: k, ID: i, Script: []Op{{Op: "reply", P: json.RawMessage(`{"big":` + BigString(70000) + `}`)}}}
+				b, _ := json.Marshal(sp)
+				st.Frames = append(st.Frames, EncodeCall(c.Ifaces[0]+".Big", b, false, false, false))
+			}
+		}
+		if c.Transport == "unix" {
+			// a kernel socket buffers a few hundred KB: make sure the replies exceed it
+			for i := 0; i < 40; i++ {
+				st.Frames = append(st.Frames, EncodeCall("org.varlink.service.GetInterfaceDescription", jsonObj("interface", "org.varlink.service"), false, false, false))
+			}
+			sp := ScriptParams{Conn: k, ID: 99, Script: []Op{{Op: "reply", P: json.RawMessage(`{"big":` + BigString(2000000) + `}`)}}}
+			b, _ := json.Marshal(sp)
+			st.Frames = append([]Blob{EncodeCall(c.Ifaces[0]+".Big", b, false, false, false)}, st.Frames...)
+		}
+		c.Conns = append(c.Conns, st)
+	}
 	return c
 }
 
@@ -153,6 +181,11 @@ func checkC01(c ProtoCase, st *Stats) error {
 	nt := false
 	var labels []string
 	labels = append(labels, "transport:"+c.Transport, fmt.Sprintf("conns:%d", len(c.Conns)))
+	for _, cc := range c.Conns {
+		if cc.NoRead {
+			labels = append(labels, "has:stalled-never-reading-client")
+		}
+	}
 	if out != nil {
 		for k, cc := range c.Conns {
 			if len(cc.Frames) < 2 || k >= len(out.ExpInvs) {
@@ -222,6 +255,7 @@ func TestC01Enum(t *testing.T) {
 		{Op: "invalidparam", S: "p"},
 		{Op: "notimpl", S: "M"},
 		{Op: "fail"},
+		{Op: "fail", S: "net-timeout"},
 	}
 	maxLen := 2
 	if Thorough() {
